@@ -266,12 +266,49 @@ func runCase(r *hx.Run, c hx.Case) {
 		}
 	case "render":
 		// replay of the model-side line of a mix case: <desc> inf mix <msgenc> <parts> <embeds> <attach>
-		if len(c.Args) >= 6 && c.Args[2] == "ctype" {
+		if len(c.Args) >= 7 && c.Args[2] == "addrs" {
+			runCase(r, hx.Case{ID: c.ID, Kind: "addrs", Args: c.Args[3:7]})
+		} else if len(c.Args) >= 6 && c.Args[2] == "ctype" {
 			runCase(r, hx.Case{ID: c.ID, Kind: "ctype", Args: c.Args[3:6]})
 		} else if len(c.Args) >= 7 && c.Args[2] == "mix" {
 			runMix(r, hx.Case{ID: strings.TrimSuffix(c.ID, "-reenc"), Kind: "mix", Args: c.Args[3:7]})
 		} else {
 			r.Fail(c.ID, "bad-replay", "unknown render case")
+		}
+	case "addrs":
+		// address headers with display names of every length around the folding limit: From / To / Cc / Reply-To are
+		// folded like every other field (no line over 78 characters unless it is a single token)
+		spec := bytex.MsgSpec{From: string(hx.UnHex(c.Args[0])), Gen: []bytex.KV{{K: "Subject", V: []string{"addrs"}}},
+			Parts: []bytex.PartSpec{{CType: "text/plain", Prod: bytex.Producer{Chunks: [][]byte{[]byte("x\r\n")}}}}}
+		for _, a := range hx.UnHexList(c.Args[1]) {
+			spec.To = append(spec.To, string(a))
+		}
+		for _, a := range hx.UnHexList(c.Args[2]) {
+			spec.Cc = append(spec.Cc, string(a))
+		}
+		spec.ReplyTo = string(hx.UnHex(c.Args[3]))
+		bytex.ResetRand()
+		m, err := spec.Build()
+		if err != nil {
+			r.AddOracleOnly(c, false) // the setter refused an address: not this property's subject
+			return
+		}
+		desc := bytex.Describe(m, &spec, [3]string{}, bytex.DrawnBoundaries(0, 4))
+		sink := &bytex.Sink{K: -1}
+		_, werr, pan := bytex.SafeWriteTo(m, sink)
+		if pan != nil || werr != nil {
+			r.Fail(c.ID, "render-failed", fmt.Sprint(pan, werr))
+			return
+		}
+		out := sink.Accepted
+		r.Add(hx.Case{ID: c.ID, Kind: "render", Args: append([]string{desc, "inf", "addrs"}, c.Args...)}, fmt.Sprintf("ok %d %s", len(out), hx.Hex(out)), true)
+		hdr, _, ok := splitHeaderBody(out)
+		if !ok {
+			r.Fail(c.ID, "no-header-end", "no empty line in output")
+			return
+		}
+		if cl, d := checkLines(hdr, 78, true); cl != "" {
+			r.Fail(c.ID, "addrs-hdr-"+cl, d)
 		}
 	case "ctype":
 		// a single-part message whose content type has parameters of its own: its Content-Type / Content-Description
@@ -602,6 +639,23 @@ func Run(r *hx.Run, replay []hx.Case) {
 				continue
 			}
 			runCase(r, hx.Case{ID: r.NewID(), Kind: "qp", Args: []string{hx.HexList(ch)}})
+		}
+	}
+	// address headers: the first address of each header with a display name of every length that brings the first
+	// line to 70..90 characters, alone and followed by further addresses
+	for n := 30; n <= 70; n++ {
+		name := strings.Repeat("Nn ", n/3) + strings.Repeat("x", n%3)
+		mk := func(local string) string { return fmt.Sprintf("\"%s\" <%s@example.com>", strings.TrimSpace(name), local) }
+		one := func(l ...string) string {
+			b := make([][]byte, len(l))
+			for i, x := range l {
+				b[i] = []byte(x)
+			}
+			return hx.HexList(b)
+		}
+		runCase(r, hx.Case{ID: r.NewID(), Kind: "addrs", Args: []string{hx.Hex([]byte(mk("from"))), one(mk("to")), one(mk("cc")), hx.Hex([]byte(mk("reply")))}})
+		if n%2 == 0 {
+			runCase(r, hx.Case{ID: r.NewID(), Kind: "addrs", Args: []string{hx.Hex([]byte("plain@example.com")), one(mk("to"), "second@example.com", mk("third")), one(mk("cc"), "\"Short\" <s@example.com>"), hx.Hex([]byte("r@example.com"))}})
 		}
 	}
 	// single-part messages with long content types and descriptions
